@@ -222,6 +222,11 @@ func c15GenLine(t *rapid.T) string {
 		payload = mixed + rapid.SampledFrom([]string{"", ":evil!e@e PRIVMSG #c :forged", " x"}).Draw(t, "lowbytetail")
 	}
 	line := prefix + payload
+	// a user name with multi-byte characters at every offset: it becomes part of the prefix of every
+	// later line of the session
+	if rapid.IntRange(0, 9).Draw(t, "mbuser") == 0 {
+		line = "USER " + strings.Repeat("u", rapid.IntRange(0, 11).Draw(t, "userpad")) + strings.Repeat(rapid.SampledFrom([]string{"ü", "€", "😀"}).Draw(t, "userunit"), rapid.IntRange(1, 6).Draw(t, "usern")) + " 0 * :Real Name"
+	}
 	// the terminator far behind the start: more than 512 bytes of parameters or blanks which the
 	// command handler drops, then a short text with a terminator and a forged line
 	if rapid.IntRange(0, 9).Draw(t, "farterminator") == 0 {
